@@ -811,10 +811,12 @@ pub fn run_c19(tier: &str, seed: u64, out: &mut Out) {
     // truncation: every proper prefix of a well-formed single-datum text
     let cfg_d = GenCfg { max_depth: 3, max_len: 3, names: NameMode::PlainR7rs, floats: FloatMode::Finite, nil_bool: true };
     let cfg_e = GenCfg { max_depth: 3, max_len: 3, names: NameMode::PlainAllDialects, floats: FloatMode::Finite, nil_bool: true };
-    let singles: Vec<&str> = vec!["#nil", "#t", "#f", "#x1F", "#b-101", "#o17", "#d9", "1.5e10", "-0.25", "1e21", "5e-324", "#\\space", "#\\newline", "#\\x41", "#\\λ", "\"a\\x41;b\"", "\"\\n\\t\\\\\"", "#u8(1 2 255)", "#vu8(0)", "'(a b)", "`(a ,b ,@c)", "λx", "(a . b)", "#(1 #(2))", "#:kw", "(1 (2 (3)))", "\"λ→\"", "+.a", "...", "(a ;c\n b)"];
+    let singles: Vec<&str> = vec!["#nil", "#t", "#f", "#x1F", "#b-101", "#o17", "#d9", "1.5e10", "-0.25", "1e21", "5e-324", "#\\space", "#\\newline", "#\\x41", "#\\λ", "\"a\\x41;b\"", "\"\\n\\t\\\\\"", "#u8(1 2 255)", "#vu8(0)", "'(a b)", "`(a ,b ,@c)", "λx", "(a . b)", "#(1 #(2))", "#:kw", "(1 (2 (3)))", "\"λ→\"", "+.a", "...", "(a ;c\n b)", "#\\xD8A5D", "(a #\\xDB864 b)", "'.|x", "(a .\"b\")"];
+    let esingles: Vec<&str> = vec!["?\\xD8A5D", "[?\\154000 ?\\xdce48]", "(a . [?\\xd7ff])"];
     let m = n / 4;
-    for i in 0..m + singles.len() {
-        let (text, ro): (Vec<u8>, Ro) = if i < singles.len() { (singles[i].as_bytes().to_vec(), Ro::DEFAULT) } else if i % 2 == 0 {
+    for i in 0..m + singles.len() + esingles.len() {
+        let (text, ro): (Vec<u8>, Ro) = if i < singles.len() { (singles[i].as_bytes().to_vec(), Ro::DEFAULT) }
+        else if i < singles.len() + esingles.len() { (esingles[i - singles.len()].as_bytes().to_vec(), Ro::ELISP) } else if i % 2 == 0 {
             (lexpr::to_vec(&gen_value(&mut r, &cfg_d, 0)).unwrap(), Ro::DEFAULT)
         } else {
             let v = loop { let v = gen_value(&mut r, &cfg_e, 0); if all_names_plain(&v, Ro::ELISP) { break v; } };
